@@ -192,6 +192,13 @@ class C09(Check):
         # ECU model dimension: the reboot happens a little AFTER the positive response to ECUReset (well inside the 0.5 s the
         # scanner waits before it pings the ECU again)
         plan["reset_delay"] = rng.choice([0.0, 0.004, 0.05, 0.3]) if plan["reset"] else 0.0
+        # ECU model dimension: requests for some session ids are not answered at all (the ECU stays where it is); such a session
+        # cannot be entered, the scan must get over the timeouts and still report the rest (own stream of draws)
+        rng8 = rng_for(seed, "C09-silent", index)
+        plan["silent"] = sorted(rng8.sample(range(2, 0x7F), rng8.choice([1, 2]))) if rng8.random() < 0.12 and not plan["thorough"] else []
+        if plan["silent"] and rng8.random() < 0.5 and len(g) > 1:
+            plan["silent"][0] = rng8.choice(sorted(k_ for k_ in g if k_ != 1))
+            plan["silent"] = sorted(set(plan["silent"]))
         plan["db"] = rng.random() < 0.4
         # an earlier, finished scan of the same target in the same database (its session_transition rows must not influence this scan)
         plan["prior_depth"] = rng.choice([None, None, 2, 3, 4]) if plan["db"] and len(g) <= 6 else None
@@ -263,6 +270,7 @@ class C09(Check):
         ecu = GraphECU(graph, offer_reset=plan["offer_reset"], refuse_nrc=plan.get("refuse_nrc"))
         ecu.busy_once = {tuple(e_) for e_ in plan.get("busy_once") or []}
         ecu.reset_delay = plan.get("reset_delay", 0.0)
+        ecu.silent = set(plan.get("silent") or [])
         kw: dict[str, Any] = {}
         if plan["db"]:
             kw["db"] = tmp / "db.sqlite"
@@ -289,12 +297,13 @@ class C09(Check):
         n = len(graph)
         stacks = (n ** plan["depth"]) if plan["thorough"] else n
         vcap = (400.0 if plan.get("prior_depth") else 0.0) + 60.0 + stacks * 130 * (plan["depth"] + 2) * (plan["lat"][1] * 4 + 0.01) * 20 + stacks * plan["depth"] * (plan["sleep"] + 3.0) * 130 * (1 if plan["reset"] else 0.02)
+        vcap += len(plan.get("silent") or []) * (stacks + 1) * (plan["depth"] + 1) * 40.0  # every unanswered request costs the client's retries
         out = world.run_cli(main, vcap=vcap, stepcap=30_000_000)
         world.sql.close_all()
         res["vtime"] = out["vtime"]
         res["steps"] = out["steps"]
         skip = set(plan["skip"])
-        want, depth_of = reachable(graph, plan["depth"], skip)
+        want, depth_of = reachable(graph, plan["depth"], skip | set(plan.get("silent") or []))
         cmd = holder.get("cmd")
         res["trace"] = [[s, p.hex()] for s, p in ecu.monitor.requests[:4000]] + [cmd.result if cmd else None]
         if out["kind"] == "hung":
@@ -375,6 +384,8 @@ class C09(Check):
             bump(res["faults"], "thorough")
         if plan["reset"]:
             bump(res["faults"], "reset_between_probes")
+        if ecu.silent_fired:
+            bump(res["faults"], "session_change_requests_left_unanswered_by_the_ecu", ecu.silent_fired)
         if ecu.late_resets:
             bump(res["faults"], "ecu_reboots_after_acknowledging_the_reset", ecu.late_resets)
         if plan.get("prior_depth"):
